@@ -78,7 +78,7 @@ func init() {
 		ID:    "C16",
 		Level: "exploration",
 		Rule: "strict ping-pong on the bidirectional method: the simulated client delivers request k+1 only after it has parsed response k out of the bytes the response writer made visible (visible = flushed), " +
-			"the scripted handler writes response k only after it has read request k completely; 1..50 rounds (thorough up to 500), payloads 0..64 KiB, gRPC / gRPC-Web / Connect-streaming clients x streaming targets x " +
+			"the scripted handler writes response k only after it has read request k completely (reading and writing on one goroutine, or on two as reverse proxies do); 1..50 rounds (thorough up to 500), payloads 0..64 KiB, gRPC / gRPC-Web / Connect-streaming clients x streaming targets x " +
 			"same/different codec and compression, handler calling Flush itself or never, all scheduling policies and read/delivery segmentations; oracle: all rounds complete and the outcome is OK; quiescence with parked tasks is a deadlock. " +
 			"distinct = (form>target/request path/response path/flush mode/round bucket, schedule hash); non-trivial = the transcoder is in the data path",
 		Gen: func(c *Chooser, tier string) *Plan {
@@ -107,7 +107,7 @@ func init() {
 			rp.Compression = Pick(c, "", "gzip", "deflate")
 			rp.TrailerStyle = Pick(c, "announce", "prefix")
 			rp.FlushEvery = Pick(c, 0, 1)
-			bp := BackendPlan{Mode: "pingpong", ReadSizes: genSegSizes(c), Resp: rp}
+			bp := BackendPlan{Mode: "pingpong", ReadSizes: genSegSizes(c), Resp: rp, SplitReader: c.Prob(0.4)}
 			cp.Deliveries = nil
 			return &Plan{Config: ConfigPlan{Services: []ServicePlan{svc}}, RPCs: []RPCPlan{{Client: cp, Backend: bp}}, Sched: genSched(c), Pool: genPool(c), StepCap: 2000000}
 		},
